@@ -49,7 +49,10 @@ def to_steps(seq, waits=None, par_delay=0.0):
         elif s == "commit_tmo":
             steps.append(["commit_tmo", 0.0004])
         elif s in ("ctx_ok", "ctx_exc"):
-            steps.append([s, [["send", 0, 0, False]]] + (["base"] if s == "ctx_exc" and i % 2 else []))
+            # every other ctx_ok body goes on working after its fire-and-forget send (an error reply can land while the
+            # body is still running and no call of the body observes it)
+            steps.append([s, [["send", 0, 0, False]] + ([["sleep", 0.05]] if s == "ctx_ok" and i % 2 else [])] +
+                         (["base"] if s == "ctx_exc" and i % 2 else []))
         elif s == "pause":
             steps.append(["sleep", 0.2])
     return steps
